@@ -4,5 +4,7 @@ MCProblems == {[name |-> "uniform_solid", core |-> "solid", uniformCore |-> TRUE
                [name |-> "two_solid", core |-> "solid", uniformCore |-> TRUE],
                [name |-> "liquid_core", core |-> "liquid", uniformCore |-> TRUE],
                [name |-> "solid_liquid_solid", core |-> "solid", uniformCore |-> TRUE],
-               [name |-> "ocean_world", core |-> "solid", uniformCore |-> TRUE]}
+               [name |-> "ocean_world", core |-> "solid", uniformCore |-> TRUE],
+               \* a DYNAMIC liquid core, forced at 1e-3 rad/s (dynamic liquids are documented as unstable at low frequency)
+               [name |-> "dyn_liquid_core", core |-> "liquid", uniformCore |-> TRUE]}
 =============================================================================
